@@ -145,6 +145,7 @@ Degenerate(i) ==
    \/ /\ i.mn \in DivMn /\ i.ops[1].k = "reg"                                                   \* dividing by the upper half of the dividend always faults
       /\ (IF i.w = 8 THEN i.ops[1].n = 4 ELSE i.ops[1].n = 2)
    \/ i.mn = "cmpxchg" /\ i.ops[2].k = "reg" /\ RegIdx(i.ops[2]) = 1                              \* source = accumulator: a store of the same value
+   \/ i.mn = "cmpxchg" /\ i.ops[1].k = "reg" /\ RegIdx(i.ops[1]) = 1                              \* destination = accumulator: always equal
    \/ i.mn = "cmpxchg" /\ i.ops[1].k = "mem" /\ 1 \in AddrIdx(i.ops[1])                          \* accumulator also addresses the destination
 
 \* ---- instructions outside the integer core: declared sets (not probed) ------------------------------------
